@@ -250,22 +250,25 @@ func joinN(bs [][]byte) []byte {
 
 type ringQ struct{ b *ring.Buffer }
 
-func (q ringQ) name() string             { return "ring" }
-func (q ringQ) write(p []byte)           { q.b.Write(p) }
-func (q ringQ) writev(bs [][]byte) bool  { return false }
-func (q ringQ) read(n int) []byte        { p := make([]byte, n); m, _ := q.b.Read(p); return p[:m] }
-func (q ringQ) peek(n int) []byte        { h, t := q.b.Peek(n); return join2(h, t) }
-func (q ringQ) discard(n int) int        { d, _ := q.b.Discard(n); return d }
-func (q ringQ) reset()                   { q.b.Reset() }
-func (q ringQ) buffered() int            { return q.b.Buffered() }
-func (q ringQ) isEmpty() bool            { return q.b.IsEmpty() }
-func (q ringQ) bytes() ([]byte, bool)    { return q.b.Bytes(), true }
-func (q ringQ) writeByte(c byte) bool    { q.b.WriteByte(c); return true }
+func (q ringQ) name() string            { return "ring" }
+func (q ringQ) write(p []byte)          { q.b.Write(p) }
+func (q ringQ) writev(bs [][]byte) bool { return false }
+func (q ringQ) read(n int) []byte       { p := make([]byte, n); m, _ := q.b.Read(p); return p[:m] }
+func (q ringQ) peek(n int) []byte       { h, t := q.b.Peek(n); return join2(h, t) }
+func (q ringQ) discard(n int) int       { d, _ := q.b.Discard(n); return d }
+func (q ringQ) reset()                  { q.b.Reset() }
+func (q ringQ) buffered() int           { return q.b.Buffered() }
+func (q ringQ) isEmpty() bool           { return q.b.IsEmpty() }
+func (q ringQ) bytes() ([]byte, bool)   { return q.b.Bytes(), true }
+func (q ringQ) writeByte(c byte) bool   { q.b.WriteByte(c); return true }
 func (q ringQ) readByte() (byte, bool, bool) {
 	c, err := q.b.ReadByte()
 	return c, err == nil, true
 }
-func (q ringQ) readFrom(p []byte) bool { q.b.ReadFrom(&chunkReader{append([]byte{}, p...), 1 << 30}); return true }
+func (q ringQ) readFrom(p []byte) bool {
+	q.b.ReadFrom(&chunkReader{append([]byte{}, p...), 1 << 30})
+	return true
+}
 func (q ringQ) writeTo(limit int) ([]byte, bool) {
 	w := &limitWriter{limit: limit}
 	q.b.WriteTo(w)
@@ -289,7 +292,10 @@ func (q eringQ) readByte() (byte, bool, bool) {
 	c, err := q.b.ReadByte()
 	return c, err == nil, true
 }
-func (q eringQ) readFrom(p []byte) bool { q.b.ReadFrom(&chunkReader{append([]byte{}, p...), 1 << 30}); return true }
+func (q eringQ) readFrom(p []byte) bool {
+	q.b.ReadFrom(&chunkReader{append([]byte{}, p...), 1 << 30})
+	return true
+}
 func (q eringQ) writeTo(limit int) ([]byte, bool) {
 	w := &limitWriter{limit: limit}
 	q.b.WriteTo(w)
@@ -306,16 +312,19 @@ func (q llQ) writev(bs [][]byte) bool {
 	}
 	return true
 }
-func (q llQ) read(n int) []byte             { p := make([]byte, n); m, _ := q.b.Read(p); return p[:m] }
-func (q llQ) peek(n int) []byte             { o := joinN(q.b.Peek(n)); return o }
-func (q llQ) discard(n int) int             { d, _ := q.b.Discard(n); return d }
-func (q llQ) reset()                        { q.b.Reset() }
-func (q llQ) buffered() int                 { return q.b.Buffered() }
-func (q llQ) isEmpty() bool                 { return q.b.IsEmpty() }
-func (q llQ) bytes() ([]byte, bool)         { return nil, false }
-func (q llQ) writeByte(c byte) bool         { return false }
-func (q llQ) readByte() (byte, bool, bool)  { return 0, false, false }
-func (q llQ) readFrom(p []byte) bool        { q.b.ReadFrom(&chunkReader{append([]byte{}, p...), 1 << 30}); return true }
+func (q llQ) read(n int) []byte            { p := make([]byte, n); m, _ := q.b.Read(p); return p[:m] }
+func (q llQ) peek(n int) []byte            { o := joinN(q.b.Peek(n)); return o }
+func (q llQ) discard(n int) int            { d, _ := q.b.Discard(n); return d }
+func (q llQ) reset()                       { q.b.Reset() }
+func (q llQ) buffered() int                { return q.b.Buffered() }
+func (q llQ) isEmpty() bool                { return q.b.IsEmpty() }
+func (q llQ) bytes() ([]byte, bool)        { return nil, false }
+func (q llQ) writeByte(c byte) bool        { return false }
+func (q llQ) readByte() (byte, bool, bool) { return 0, false, false }
+func (q llQ) readFrom(p []byte) bool {
+	q.b.ReadFrom(&chunkReader{append([]byte{}, p...), 1 << 30})
+	return true
+}
 func (q llQ) writeTo(limit int) ([]byte, bool) {
 	w := &limitWriter{limit: limit}
 	q.b.WriteTo(w)
@@ -341,7 +350,10 @@ func (q elQ) isEmpty() bool                { return q.b.IsEmpty() }
 func (q elQ) bytes() ([]byte, bool)        { return nil, false }
 func (q elQ) writeByte(c byte) bool        { return false }
 func (q elQ) readByte() (byte, bool, bool) { return 0, false, false }
-func (q elQ) readFrom(p []byte) bool       { q.b.ReadFrom(&chunkReader{append([]byte{}, p...), 1 << 30}); return true }
+func (q elQ) readFrom(p []byte) bool {
+	q.b.ReadFrom(&chunkReader{append([]byte{}, p...), 1 << 30})
+	return true
+}
 func (q elQ) writeTo(limit int) ([]byte, bool) {
 	w := &limitWriter{limit: limit}
 	q.b.WriteTo(w)
@@ -621,11 +633,11 @@ func c19Scenarios(tier string) []*world.Scenario {
 func init() {
 	register(&Check{ID: "C05", Level: "model_checking",
 		Rule: "bounded-exhaustive input enumeration: every string over {'{','}',a,b} up to length 8 (thorough 10), every string over {'{','}',00,ff} and over {'{','}',CR,LF,k} up to length 5 (thorough 7), all 256 one-byte and all 65536 two-byte strings (thorough: + 458752 three-byte strings), one brace-free, one tagged and one '}'-before-'{' key for each of the 16384 slots, the specification vector '123456789'; plus, through the running proxy, every ordered pair (thorough: triple) of a 14-key pool of awkward keys (empty, lone braces, empty tag, '}' before '{', nested braces, binary) as MGET and DEL, each key having to arrive at the node that owns its specification slot; oracle: bitwise CRC16/XMODEM (no table) over the specification's hash-tag rule, mod 16384; states = inputs, transitions = evaluations of hashkit.Hash; non-trivial = inputs containing a brace, distinct = distinct specification slots they hit",
-		Seq: c05Seq, Scenarios: c05Scenarios, BudgetQuick: 60, BudgetThorough: 600,
+		Seq:  c05Seq, Scenarios: c05Scenarios, BudgetQuick: 60, BudgetThorough: 600,
 		Assumptions: []string{"the slot function depends only on brace positions and a length-uniform CRC recurrence over a 256-entry table; both are covered exhaustively"}})
 	register(&Check{ID: "C19", Level: "model_checking",
 		Rule: "every operation sequence up to length 4 (thorough 5; one less for the 1 KiB / 4 KiB configurations) over {Write k, Writev(k1,k2), Read k, Peek k / all, Discard k, Reset, WriteByte, ReadByte, Bytes, ReadFrom k, WriteTo(limit k / unlimited)} with k in {1,3,cap-1,cap,cap+1,2cap+1} on ring.Buffer (initial capacity 0, 4, 8, 4096; thorough also 1024), linkedlist.Buffer, elastic.RingBuffer and elastic.Buffer (static limit 8, 1024; thorough also 4, 4096); payload bytes are a running counter; oracle: a []byte queue, compared after every operation (returned/peeked bytes, discarded counts, Buffered, IsEmpty) and by a final drain; plus, inside the running proxy, replies of 17..700 bytes and batches of three replies released by one vectored write to a slow reader under every EAGAIN / short-write answer within the bound (the client must receive the exact stream); states = sequences + decision nodes, transitions = operations executed + choice points",
-		Seq: c19Seq, Scenarios: c19Scenarios, BudgetQuick: 90, BudgetThorough: 1200,
+		Seq:  c19Seq, Scenarios: c19Scenarios, BudgetQuick: 90, BudgetThorough: 1200,
 		Assumptions: []string{"ReadFrom is driven by readers that return data and EOF in separate calls; WriteTo by writers that return short counts without an error (non-blocking socket behaviour) - the property statement does not cover readers/writers that fail"}})
 	SeqReplay["C05"] = func(in string) (string, bool) {
 		key, _ := hex.DecodeString(in)
